@@ -3,7 +3,7 @@
 From Coq Require Import String List NArith Bool.
 From J5V.model Require Import Conc ConcSites ConcCorr ConcRace ConcStatement ConcState.
 From J5V.gen Require ConcGen ConcStateGen.
-From J5V.proofs Require Import ConcProofs ConcInvProofs ConcTermProofs ConcMainProofs ConcRaceProofs ConcFullProofs.
+From J5V.proofs Require Import ConcProofs ConcInvProofs ConcTermProofs ConcMainProofs ConcRetProofs ConcRaceProofs ConcFullProofs.
 Import ListNotations.
 Local Open Scope N_scope.
 
@@ -171,6 +171,50 @@ Theorem C10_guarded_linked_when_free : forall k g calls sched, calls_ok calls ->
     good g n.
 Proof. exact guarded_linked_when_free. Qed.
 Print Assumptions C10_guarded_linked_when_free.
+
+(* (4) WHICH object a call is handed, beyond its shape.  rets = the list (thread, type, cell) of
+   the RefSchema cells whose To the successful calls of a run returned, in order of
+   completion (the Go pointer `built.To` / `placeholder.To`; the harness compares pointer
+   identity within each forced case with cell identity in the model).
+   (4a) one canonical object per type: any two calls on the same type, by whatever threads and
+   however far apart, are handed the same cell *)
+Theorem C10_guarded_canonical_object : forall k g calls sched t1 t2 n c1 c2, calls_ok calls ->
+  In (t1, n, c1) (rets Guarded k g calls sched) -> In (t2, n, c2) (rets Guarded k g calls sched) -> c1 = c2.
+Proof. exact guarded_ret_canonical. Qed.
+Print Assumptions C10_guarded_canonical_object.
+
+(* (4b) the object handed out is completely linked — it unfolds to its type at EVERY depth d, not
+   only the depth k of the recorded result — at the moment it is handed out and at every
+   later point of the run, including the middle of another thread's build or roll-back:
+   immutable after publication *)
+Theorem C10_guarded_object_linked_for_good : forall k g calls sched t n c, calls_ok calls ->
+  In (t, n, c) (rets Guarded k g calls sched) ->
+  forall later d, unfold d (heap (s_sh (run Guarded k g calls (sched ++ later)))) c = gunfold d g n.
+Proof. exact guarded_ret_linked. Qed.
+Print Assumptions C10_guarded_object_linked_for_good.
+
+(* the list is about the recorded results: the step that hands cell c to thread t records the
+   unfolding of c as the result of t's current call *)
+Theorem C10_ret_is_result : forall k g t st t' n c,
+  gstep_ret k g t st = Some (t', n, c) ->
+  exists th rest, nth_error (s_thr st) t = Some th /\ t_calls th = n :: rest /\ t' = t /\
+    snd (lstep k g n (s_sh st) (t_pc th)) = inr (ROk (unfold k (heap (s_sh st)) c)).
+Proof. exact ret_is_result. Qed.
+Print Assumptions C10_ret_is_result.
+
+(* non-vacuity, and what shape alone does not see: under the lock three calls on types 1 and 3
+   by three threads share cells; WITHOUT the lock there is a schedule on which two calls on
+   type 1 both return exactly the solo shape and yet are handed two different objects
+   (both missed the lookup, both inserted) *)
+Example C10_objects_example :
+  let g : graph := [(1, [2]); (2, [1; 3]); (3, []); (4, [3; 5; 1]); (5, [unsupported])] in
+  rets Guarded 2 g [[1; 4]; [4; 2]; [3; 1]] (concat (repeat [2; 0; 1; 1]%nat 60)) =
+    [(2%nat, 3, 0%nat); (0%nat, 1, 1%nat); (2%nat, 1, 1%nat); (1%nat, 2, 2%nat)] /\
+  let g2 : graph := [(1, [2]); (2, [])] in
+  let sched := [0; 0; 1; 1; 1; 1; 1; 1; 1; 0; 0; 0; 0; 0; 0; 0]%nat in
+  results (run Unguarded 3 g2 [[1]; [1]] sched) = [[result_solo 3 g2 1]; [result_solo 3 g2 1]] /\
+  rets Unguarded 3 g2 [[1]; [1]] sched = [(1%nat, 1, 0%nat); (0%nat, 1, 2%nat)].
+Proof. cbv zeta. repeat split; vm_compute; reflexivity. Qed.
 
 (* mutual exclusion of the section between cache.lookup and the return *)
 Theorem C10_guarded_mutex : forall k g calls sched t1 t2 th1 th2, calls_ok calls ->
